@@ -44,8 +44,9 @@ func setup(c *casket.Controller) error {
 
 func logParse(c *casket.Controller) ([]*Rule, error) {
 	var rules []*Rule
-	var logExceptions []string
 	for c.Next() {
+		// the exceptions belong to this log directive only
+		var logExceptions []string
 		args := c.RemainingArgs()
 
 		ip4Mask := net.IPMask(net.ParseIP(DefaultIP4Mask).To4())
